@@ -145,6 +145,10 @@ def worker(ctx):
             gf_all = go_functions(go_all)
             exp_all = {(k, c_type_name(m)) for m in msgs for k in ("Encode", "Decode")}
             res.count("unfiltered_function_sets_checked")
+            if msgs and (not cf_all or not gf_all):
+                # the textual function extractor no longer understands the generator's layout: that is the monitor's problem
+                res.inconclusive.append("no Encode/Decode function could be extracted from unfiltered -O output (generator layout changed?)")
+                continue
             if set(cf_all) != exp_all or set(gf_all) != exp_all:
                 res.violation("unfiltered-function-set", f"-O without -F: C defines {sorted(set(cf_all) ^ exp_all)[:4]} / Go {sorted(set(gf_all) ^ exp_all)[:4]} differently from the message list", wit)
             if mode == "endian":
